@@ -34,7 +34,7 @@ def check_cache(
 
     from hypergraph.cache import compute_cache_key
 
-    cache_key = compute_cache_key(node.definition_hash, inputs)
+    cache_key = compute_cache_key(f"{node.definition_hash}:{node.outputs}", inputs)
     if not cache_key:
         return "", None
 
